@@ -1,6 +1,6 @@
 (** Extraction of the executable model and the oracles to OCaml (ExtrOcamlBasic only). *)
 From Coq Require Import Extraction ExtrOcamlBasic NArith List.
-From ADF Require Import Base.Maps Spec.Spec Bdd.Store Adf.Iter Adf.Native Adf.NoGood Adf.Search Front.Parser.
+From ADF Require Import Gen.GenLeaf Gen.GenFlags Base.Maps Spec.Spec Bdd.Store Adf.Iter Adf.Native Adf.NoGood Adf.Search Front.Parser.
 Extraction Language OCaml.
 Extraction "extracted/model.ml"
   Store.init Store.mk_node Store.restrict Store.ite Store.variable Store.constant
@@ -14,6 +14,7 @@ Extraction "extracted/model.ml"
   Native.stable_with_prefilter Native.stable_from_candidates Native.stability_check
   NoGood.ngs_new NoGood.add_ng NoGood.conclusions NoGood.conclusion_closure NoGood.conclude NoGood.is_violating
   NoGood.ng_of_terms NoGood.update_term_vec
-  Search.stable_count Search.heu_a Search.heu_b Search.nogood_search
+  Search.stable_count_cur Search.heu_a Search.heu_b Search.nogood_search_cur
+  GenLeaf.g_more_models GenLeaf.g_minimum GenLeaf.g_is_truth_value GenLeaf.g_compare_inf GenLeaf.g_no_inf_inconsistency GenLeaf.g_is_constant
   Parser.parse Parser.varsort_lexi Parser.resolve_acs Parser.formula_p
   N.add N.mul N.div_eucl N.of_nat N.to_nat N.eqb N.ltb N.leb.
